@@ -11,6 +11,7 @@ import (
 	"math/rand"
 	"os"
 	"runtime"
+	"sort"
 	"strings"
 	"sync/atomic"
 	"time"
@@ -20,6 +21,7 @@ import (
 	"github.com/syndtr/goleveldb/leveldb/filter"
 	"github.com/syndtr/goleveldb/leveldb/iterator"
 	"github.com/syndtr/goleveldb/leveldb/opt"
+	"github.com/syndtr/goleveldb/leveldb/storage"
 	"github.com/syndtr/goleveldb/leveldb/util"
 
 	"verif/harness/internal/vt"
@@ -48,8 +50,13 @@ type drv struct {
 	stats  map[string]int
 	filt   int // current filter choice (c16)
 
-	comp map[string]uint32
-	prog int64 // progress counter for the watchdog
+	comp                               map[string]uint32
+	mutOps, allOps, roBase, roOpenBase int64
+	stopAt                             int
+	lastMut                            []string
+	mutFt                              map[string]bool
+	openedRO                           bool
+	prog                               int64 // progress counter for the watchdog
 }
 
 // watchdog: a call that does not return within the limit is reported as a
@@ -122,7 +129,12 @@ func b2i(b bool) int {
 	return 0
 }
 
-func (d *drv) emit(e vt.Ev) { atomic.AddInt64(&d.prog, 1); d.calls++; d.stats[e["ev"].(string)]++; d.tr.Emit(e) }
+func (d *drv) emit(e vt.Ev) {
+	atomic.AddInt64(&d.prog, 1)
+	d.calls++
+	d.stats[e["ev"].(string)]++
+	d.tr.Emit(e)
+}
 
 func (d *drv) open(ro bool) error {
 	o := *d.row.O
@@ -145,7 +157,7 @@ func (d *drv) open(ro bool) error {
 	if err != nil {
 		return err
 	}
-	d.db, d.ro, d.closed = db, ro, false
+	d.db, d.ro, d.closed, d.openedRO = db, ro, false, ro
 	return nil
 }
 
@@ -369,6 +381,9 @@ func (d *drv) doReopen(ro bool) {
 	err := d.open(ro)
 	d.emit(vt.Ev{"ev": "reopen", "ro": b2i(ro), "err": errName(err)})
 	if err != nil {
+		for _, f := range d.stor.Files() {
+			fmt.Fprintf(os.Stderr, "  file %s-%d size %d\n", vt.FtName(f.Fd.Type), f.Fd.Num, f.Size)
+		}
 		d.fatal("reopen failed: %v", err)
 	}
 }
@@ -579,7 +594,27 @@ func (d *drv) doTxWrite() {
 	d.emit(vt.Ev{"ev": "txwrite", "ops": opsJSON(ops), "err": errName(err)})
 }
 
+func (d *drv) debugDump() {
+	id, lv := leveldb.VerifVersion(d.db)
+	fmt.Fprintf(os.Stderr, "DEBUG version %d seq %d frozen %v\n", id, leveldb.VerifSeq(d.db), leveldb.VerifHasFrozenMem(d.db))
+	for l, ts := range lv {
+		for _, t := range ts {
+			fmt.Fprintf(os.Stderr, "  L%d #%d %q..%q\n", l, t.Num, t.Imin, t.Imax)
+		}
+	}
+	if d.tx != nil {
+		it := d.tx.NewIterator(nil, nil)
+		for it.Next() {
+			fmt.Fprintf(os.Stderr, "  tx-iter k=%d v=%d\n", d.u.Rank(it.Key()), d.vg.In.Lookup(it.Value()))
+		}
+		it.Release()
+	}
+}
+
 func (d *drv) doTxRead(k int) {
+	if dbg := os.Getenv("VERIF_DEBUG_AT"); dbg != "" && fmt.Sprint(d.tr.N()+1) == dbg {
+		d.debugDump()
+	}
 	kb := d.arg(d.key(k))
 	if d.rng.Intn(3) == 0 {
 		r, err := d.tx.Has(kb.cur, nil)
@@ -618,6 +653,219 @@ func (d *drv) doTxEnd(commit bool) {
 	}
 }
 
+// ---- lifecycle (C18) ----
+
+func (d *drv) hookStor() {
+	d.stor.OnOp = func(op *vt.Op) {
+		atomic.AddInt64(&d.allOps, 1)
+		if op.Kind.Mutating() || op.Kind == vt.OpClose {
+			atomic.AddInt64(&d.mutOps, 1)
+			if d.stopAt != 0 {
+				if len(d.lastMut) < 8 {
+					d.lastMut = append(d.lastMut, fmt.Sprintf("%s %s-%d", op.Kind, vt.FtName(op.Fd.Type), op.Fd.Num))
+				}
+				d.mutFt[vt.FtName(op.Fd.Type)] = true
+			}
+		}
+	}
+}
+
+// settle waits until the storage has been idle for a while (background work drained).
+func (d *drv) settle() {
+	last, since := atomic.LoadInt64(&d.allOps), time.Now()
+	for time.Since(since) < 60*time.Millisecond {
+		time.Sleep(5 * time.Millisecond)
+		if n := atomic.LoadInt64(&d.allOps); n != last {
+			last, since = n, time.Now()
+		}
+	}
+}
+
+func (d *drv) quiet(what string, base int64) {
+	var c int64
+	if what == "mut" {
+		c = atomic.LoadInt64(&d.mutOps) - base
+	} else {
+		c = atomic.LoadInt64(&d.allOps) - base
+	}
+	e := vt.Ev{"ev": "quiet", "what": what, "count": c, "opened_ro": b2i(d.openedRO)}
+	if c != 0 {
+		e["ops"] = d.lastMut
+		var fts []string
+		for ft := range d.mutFt {
+			fts = append(fts, ft)
+		}
+		sort.Strings(fts)
+		e["filetypes"] = strings.Join(fts, "+")
+	}
+	d.emit(e)
+}
+
+func (d *drv) doOpen2() {
+	o := *d.row.O
+	o.ReadOnly = d.rng.Intn(2) == 0
+	db2, err := leveldb.Open(d.stor, &o)
+	e := errName(err)
+	if err == storage.ErrLocked {
+		e = "locked"
+	}
+	d.emit(vt.Ev{"ev": "open2", "err": e})
+	if err == nil {
+		db2.Close()
+	}
+}
+
+func (d *drv) doMisc() {
+	var err error
+	api := ""
+	switch d.rng.Intn(3) {
+	case 0:
+		api = "GetProperty"
+		_, err = d.db.GetProperty("leveldb.stats")
+	case 1:
+		api = "Stats"
+		err = d.db.Stats(&leveldb.DBStats{})
+	default:
+		api = "SizeOf"
+		_, err = d.db.SizeOf([]util.Range{d.rangeOf(0, d.u.N())})
+	}
+	d.emit(vt.Ev{"ev": "misc", "api": api, "err": errName(err)})
+}
+
+func (d *drv) doSetRO() {
+	err := d.db.SetReadOnly()
+	d.emit(vt.Ev{"ev": "setro", "err": errName(err)})
+	if err == nil {
+		d.ro = true
+	}
+}
+
+// everything a client may call, on whatever state the DB is in
+func (d *drv) pokeAll() {
+	n := d.u.N()
+	d.doGet(d.rng.Intn(n))
+	d.doHas(d.rng.Intn(n))
+	d.doPutDel()
+	d.doBatch()
+	d.doCompact()
+	d.doMisc()
+	d.doMisc()
+	d.doSnap()
+	d.doTxOpen()
+	if d.tx != nil {
+		d.doTxEnd(false)
+	}
+	d.doIterNew("db")
+	if h, it := d.anyIter(); it != nil {
+		d.walk(h, it, 3)
+		d.doIterRel(h, it)
+	}
+	if h, s := d.anySnap(); s != nil {
+		d.doSnapRead(h, s, d.rng.Intn(n))
+	}
+}
+
+func (d *drv) stepC18() {
+	r := d.rng.Intn(1000)
+	n := d.u.N()
+	switch {
+	case d.closed:
+		// after Close: every method says closed, nothing touches storage, second Close harmless
+		base := atomic.LoadInt64(&d.allOps)
+		d.stopAt = 1
+		d.lastMut = nil
+		d.mutFt = map[string]bool{}
+		d.pokeAll()
+		if d.rng.Intn(2) == 0 {
+			d.doSetRO()
+		}
+		d.doClose()
+		d.quiet("any", base)
+		d.stopAt = 0
+		for h := range d.snaps {
+			delete(d.snaps, h)
+		}
+		d.doReopen(d.rng.Intn(3) == 0)
+		if d.ro {
+			d.roBase = atomic.LoadInt64(&d.mutOps)
+			d.roOpenBase = d.roBase
+		}
+	case d.ro:
+		switch {
+		case r < 500:
+			d.doGet(d.rng.Intn(n))
+		case r < 600:
+			d.readAll()
+		case r < 800:
+			d.pokeAll() // writes, transactions, compaction are refused; reads served
+		case r < 850:
+			d.doOpen2()
+		default:
+			// drained => nothing mutates any more
+			d.settle()
+			base := atomic.LoadInt64(&d.mutOps)
+			d.stopAt = 1
+			d.lastMut = nil
+			d.mutFt = map[string]bool{}
+			d.readAll()
+			d.pokeAll()
+			d.settle()
+			d.quiet("mut", base)
+			d.stopAt = 0
+			if d.rng.Intn(2) == 0 {
+				d.releaseAll()
+				for h, s := range d.snaps {
+					s.Release()
+					d.emit(vt.Ev{"ev": "snaprel", "h": h})
+					delete(d.snaps, h)
+				}
+				if d.openedRO {
+					// a DB opened read-only never mutated anything, Close included
+					d.doClose()
+					d.stopAt = 1
+					d.quiet("mut", d.roOpenBase)
+					d.stopAt = 0
+				} else {
+					d.doClose()
+				}
+			}
+		}
+	default:
+		switch {
+		case r < 500:
+			d.writeSome()
+		case r < 700:
+			d.doGet(d.rng.Intn(n))
+		case r < 730:
+			d.doCompact()
+		case r < 760:
+			d.doOpen2()
+		case r < 800:
+			d.doMisc()
+		case r < 850:
+			if len(d.snaps) < 3 {
+				d.doSnap()
+			}
+		case r < 900:
+			d.doSetRO()
+		case r < 930:
+			// leave work pending: data only in the journal, open transaction, live snapshot
+			d.writeSome()
+			if d.rng.Intn(2) == 0 {
+				d.doTxOpen()
+				if d.tx != nil {
+					d.doTxWrite()
+				}
+			}
+			d.releaseAll()
+			d.doClose()
+		default:
+			d.releaseAll()
+			d.doClose()
+		}
+	}
+}
+
 // ---- the programs ----
 
 func (d *drv) writeSome() {
@@ -630,6 +878,10 @@ func (d *drv) writeSome() {
 }
 
 func (d *drv) step() {
+	if d.mode == "c18" {
+		d.stepC18()
+		return
+	}
 	r := d.rng.Intn(1000)
 	n := d.u.N()
 	switch d.mode {
@@ -823,7 +1075,7 @@ func main() {
 		u:    vt.NewUniverse(row.Cmp, *nkeys, *seed, true),
 		vg:   vt.NewValueGen(*seed, classes),
 		stor: vt.NewRecStor(), snaps: map[int]*leveldb.Snapshot{}, its: map[int]iterator.Iterator{},
-		itSeen: map[int][2][]byte{}, itRaw: map[int][2][]byte{}, stats: map[string]int{}, comp: map[string]uint32{},
+		mutFt: map[string]bool{}, itSeen: map[int][2][]byte{}, itRaw: map[int][2][]byte{}, stats: map[string]int{}, comp: map[string]uint32{},
 		poison: *mode == "c20"}
 	d.stor.Record = false
 	tr.Emit(vt.Ev{"ev": "reset", "ro": 0, "mode": *mode, "seed": *seed, "row": row.Desc, "nk": d.u.N()})
@@ -836,8 +1088,11 @@ func main() {
 			"stats": d.stats, "comp": d.comp, "wall_s": time.Since(start).Seconds(), "nkeys": d.u.N()}
 	}
 	go d.watchdog(time.Duration(*hang)*time.Second, summary)
+	if *mode == "c18" {
+		d.hookStor()
+	}
 	for i := 0; i < *n; i++ {
-		if d.closed {
+		if d.closed && *mode != "c18" {
 			d.doReopen(false)
 		}
 		d.step()
@@ -846,7 +1101,7 @@ func main() {
 	if d.tx != nil {
 		d.doTxEnd(d.rng.Intn(2) == 0)
 	}
-	if d.closed {
+	if d.closed || d.ro {
 		d.doReopen(false)
 	}
 	d.readAll()
